@@ -609,7 +609,17 @@ fn handle(req: &J) -> Result<J, String> {
             let yaml = req["yaml"].as_str().ok_or("missing yaml")?;
             let orig = match Rule::from_str(yaml) {
                 Ok(r) => r,
-                Err(e) => return Ok(json!({"ok": false, "err": format!("{}", e)})),
+                Err(e) => {
+                    // text that does not load must not load as a value either
+                    let fv = match serde_yaml::from_str::<serde_yaml::Value>(yaml) {
+                        Ok(v) => match Rule::from_value(v) {
+                            Ok(r) => rule_json(&r),
+                            Err(e) => json!({"err": format!("{}", e)}),
+                        },
+                        Err(e) => json!({"err": format!("yaml: {}", e)}),
+                    };
+                    return Ok(json!({"ok": false, "err": format!("{}", e), "from_value": fv}));
+                }
             };
             let rule = match load(req) {
                 Ok(r) => r,
@@ -650,15 +660,19 @@ fn handle(req: &J) -> Result<J, String> {
                 },
                 Err(e) => json!({"ok": false, "err": e}),
             };
+            let mut fv_examples_equal = true;
             let from_value = match serde_yaml::from_str::<serde_yaml::Value>(yaml) {
                 Ok(v) => match Rule::from_value(v) {
-                    Ok(r) => rule_json(&r),
+                    Ok(r) => {
+                        fv_examples_equal = r.true_positives == orig.true_positives && r.true_negatives == orig.true_negatives;
+                        rule_json(&r)
+                    }
                     Err(e) => json!({"err": format!("{}", e)}),
                 },
                 Err(e) => json!({"err": format!("yaml: {}", e)}),
             };
             Ok(json!({"ok": true, "orig": rule_json(&orig), "verdicts": verdicts(&orig, &orig), "serialised": text.unwrap_or_default(),
-                "text": via_text, "value": via_value, "text_value": via_text_value, "from_value": from_value}))
+                "text": via_text, "value": via_value, "text_value": via_text_value, "from_value": from_value, "from_value_examples_equal": fv_examples_equal}))
         }
         "validate" => {
             let rule = match load(req) {
